@@ -41,3 +41,9 @@ claim('C19', 'exploration', 'structural scan of the printed text against the tre
       '(depth, name) records and compared with the options the effective filter accepts - exactly once, declaration order, right depth, unset scalars commented; every sampled section body '
       'must equal cfg_print_indent of that instance under the effective filter; callbacks may change only their own option\'s value text. Random exploration of schemas x filter placements is the fitting level.',
       'Trusts: the line scanner (values are drawn from an alphabet that keeps one record per line); the effective-filter rule (own, else nearest ancestor) is taken from the statement.')
+
+claim('C15', 'exploration', 'metamorphic insertion: every token boundary x every comment/blank form, result compared with the uncommented run of the real code; annotation probes (ASan+UBSan build)',
+      'For accepted and token-mutated rejected texts, each of 14 comment/blank forms (incl. empty, marker-only, multi-line, comments full of quotes/braces) is inserted at every token boundary with annotation '
+      'support on and off; return code and a hash of the values-only tree must equal the uncommented run. Annotation probes check getter, print and re-parse for comments placed immediately before scalar '
+      'and non-empty list assignments. The law is metamorphic over insertion points, so exhaustive insertion over sampled texts is the fitting level.',
+      'Trusts: the values-only tree hash computed in the driver through public getters; annotation probes cover top-level items only.')
